@@ -52,6 +52,7 @@ let run_case ~(dflt : kind) (c : case) =
     match w with
     | "keys" :: ks -> keys := Array.append !keys (Array.of_list (L.map z_of_string ks))
     | ["kind"; k] -> kd := kind_of_string k
+    | ["cmpmode"; _] -> ()   (* magnitude of the C comparator's results: only the sign matters *)
     | _ ->
       let key n = let i = int_of_nat n in if i < Array.length !keys then !keys.(i) else BinNums.Z0 in
       (match parse_op w with
@@ -69,7 +70,10 @@ let run_case ~(dflt : kind) (c : case) =
 let main ~dflt ic = L.iter (run_case ~dflt) (read_cases ic)
 
 (* closure exploration: elements 0..ne-1 with the given keys.
-   mode "all": every operation of C01; mode "rb": insert/erase/height. *)
+   mode "all": every operation of C01 with every stop position of the
+   visitor; "all-sparse": fewer stop positions; "rb": insert (plain and with
+   the hint reported by find, which for a duplicate key is the parent of
+   the equal element found)/erase/height. *)
 let explore (kd : kind) (mode : string) (keys : int list) (max_states : int) =
   let ne = L.length keys in
   let rng n = L.init n (fun i -> i) in
@@ -78,14 +82,22 @@ let explore (kd : kind) (mode : string) (keys : int list) (max_states : int) =
   let ops = ref [] in
   let add fmt = Printf.ksprintf (fun s -> match parse_op (words s) with
       | Some o -> ops := (s, o) :: !ops | None -> failwith s) fmt in
-  L.iter (fun e -> add "insert %d" e; if mode = "all" then add "inserth %d" e) (rng ne);
+  L.iter (fun e -> add "insert %d" e; add "inserth %d" e) (rng ne);
   L.iter (fun k -> add "erase %d" k) ks;
   add "height";
-  if mode = "all" then begin
+  if mode = "all" || mode = "all-sparse" then begin
     L.iter (fun k -> add "find %d" k) probe;
     add "erase %d" (L.nth probe (L.length probe - 1));
-    L.iter (fun j -> add "foreach fwd %d" j) [0; 1; 2; 4; 7];
-    L.iter (fun j -> add "foreach rev %d" j) [0; 3; 6];
+    (* a tree of ne nodes yields at most 3*ne-2 visits: "all" tries every
+       stop position in both directions (positions beyond the number of
+       visits of a state behave like 0) *)
+    let nev = 3 * ne - 2 in
+    if mode = "all" then
+      L.iter (fun j -> add "foreach fwd %d" j; add "foreach rev %d" j) (rng (nev + 2))
+    else begin
+      L.iter (fun j -> add "foreach fwd %d" j) [0; 1; 2; 4; 7; nev];
+      L.iter (fun j -> add "foreach rev %d" j) [0; 3; 6; nev - 1]
+    end;
     add "clear"; add "size"
   end;
   let karr = Array.of_list (L.map z_of_int keys) in
